@@ -67,7 +67,7 @@ def plan_seeds(n, thorough):
 
 def run(ctx):
     rng = ctx.rng
-    n = ctx.n(240, 2000)
+    n = ctx.n(225, 2000)
     histories = [G.history_c09(rng) for _ in range(n)]
     # regression corpus first: defect 15 (open_span leak) on the four writers that have the flag
     histories = CORPUS + histories
